@@ -33,6 +33,8 @@ fn main() {
       return;
     }
     eprintln!("harness panic: {}", info);
+    println!("TOOL-ERROR: harness panic: {}", info);
+    std::process::exit(2);
   }));
   let id = args[2].as_str();
   let (tier, replay) = if args[3] == "--replay" {
